@@ -666,4 +666,21 @@ theorem C11_alias_without_copy :
       (st.vals.map (view st'.heap)) = [⟨[0x61, 0x62, 0x78, 0x64], 1, 1⟩] :=
   ⟨_, _, rfl, rfl, rfl, rfl⟩
 
+/-! ### `MustParse` (round D): the same addresses as `Parse`, a panic exactly where `Parse` fails -/
+
+theorem C11_mustParse_agree (N : Norm) (s : Bytes) (j : Jid) :
+    mustParse N s = some j ↔ parse N s = .ok j := by
+  unfold mustParse
+  split <;> simp_all
+
+theorem C11_mustParse_panics_iff (N : Norm) (s : Bytes) :
+    mustParse N s = none ↔ ∃ e, parse N s = .error e := by
+  unfold mustParse
+  split <;> simp_all
+
+/-- every address `MustParse` returns is canonical, too -/
+theorem C11_mustParse_canonical {N : Norm} (g : N.Good) {s : Bytes} {j : Jid}
+    (h : mustParse N s = some j) : mustParse N j.toString = some j :=
+  (C11_mustParse_agree N _ j).mpr (C11_parse_idem g ((C11_mustParse_agree N s j).mp h))
+
 end XmppModel.Props.C11
